@@ -59,10 +59,11 @@ template<class P>
 struct Out {NormalSet<P> normals; std::vector<typename P::Scalar> curv, rel; bool has_curv; const char * name;};
 
 template<class P>
-static std::vector<Out<P>> run_all(const PointSet<P> & pts, int k, int prefill)
+static std::vector<Out<P>> run_all(NormalAndCurvatureEstimation<P> & est, const PointSet<P> & pts, int k, int prefill)
 {
   using S = typename P::Scalar;
   const size_t N = pts.size();
+  (void)k;
   auto mk = [&](const char * name, bool hc) {
       Out<P> o;
       o.normals = prefill ? NormalSet<P>(N) : NormalSet<P>(N, P::Zero());
@@ -70,7 +71,6 @@ static std::vector<Out<P>> run_all(const PointSet<P> & pts, int k, int prefill)
       return o;
     };
   std::vector<Out<P>> outs;
-  NormalAndCurvatureEstimation<P> est(k);
   KdTree<P> tree(pts);
   {auto o = mk("points", false); est.compute(pts, o.normals); outs.push_back(std::move(o));}
   {auto o = mk("points+tree", false); est.compute(pts, tree, o.normals); outs.push_back(std::move(o));}
@@ -97,8 +97,23 @@ static void run_cloud(vh::Ctx & c, vh::Rng & r, const Cloud & cl)
   std::vector<VecL> rpR(N);
   for (int i = 0; i < N; ++i) {ptsR[i] = make_point<P>(VecL(R * rp[i])); rpR[i] = cart_of(ptsR[i]);}
 
-  std::vector<Out<P>> outs = run_all<P>(pts, cl.k, cl.prefill);
-  std::vector<Out<P>> outsR = run_all<P>(ptsR, cl.k, cl.prefill);
+  // History: in half of the cases ONE estimator object processes the cloud and then the rotated
+  // cloud written in place into the SAME PointSet object (a reused scan buffer); otherwise fresh
+  // objects.  The outputs must not depend on which.
+  const bool reuse = r.coin();
+  c.cat(reuse ? "estimator_and_buffer_reused" : "fresh_estimator_per_cloud");
+  std::vector<Out<P>> outs, outsR;
+  if (reuse) {
+    NormalAndCurvatureEstimation<P> est(cl.k);
+    PointSet<P> buf = pts;
+    outs = run_all<P>(est, buf, cl.k, cl.prefill);
+    for (int i = 0; i < N; ++i) {buf[i] = ptsR[i];}
+    outsR = run_all<P>(est, buf, cl.k, cl.prefill);
+  } else {
+    NormalAndCurvatureEstimation<P> est1(cl.k), est2(cl.k);
+    outs = run_all<P>(est1, pts, cl.k, cl.prefill);
+    outsR = run_all<P>(est2, ptsR, cl.k, cl.prefill);
+  }
 
   auto params = [&]() {
       return vh::Params{{"dim", (double)d}, {"is_float", (double)cl.is_float}, {"homogeneous", (double)cl.homogeneous},
